@@ -45,7 +45,7 @@ func hasDollar(tv *gen.TV) bool {
 func genCase(t *rapid.T) Case {
 	c := Case{PathSep: rapid.Bool().Draw(t, "pathsep")}
 	cfg := &gen.TDCfg{
-		MaxFields: runlog.Pick(4, 5), Named: true, Inline: true, Ignore: true, EmptyTag: true,
+		MaxFields: runlog.Pick(4, 5), Named: true, Inline: true, Ignore: true, EmptyTag: true, NumericTag: true,
 		Dotted:     c.PathSep,
 		PtrToArray: !runlog.IsOpen("D26"),
 		InlineMap:  true, // class of finding D22: always generated, discarded (and counted) in run while the finding is open
@@ -65,6 +65,7 @@ type features struct {
 	inline, ignore, unexp, dotted, emptyTag   bool
 	ptr, slice, array, mapk, dur, re, named   bool
 	inlineMapNextToNamed, ptrToArray, nonZero bool
+	numericTag                                bool
 }
 
 func scan(td *gen.TD, depth int, f *features) {
@@ -109,6 +110,9 @@ func scan(td *gen.TD, depth int, f *features) {
 			}
 			if fd.Tag == "" && !fd.Inline {
 				f.emptyTag = true
+			}
+			if len(fd.Tag) > 0 && fd.Tag[0] >= '0' && fd.Tag[0] <= '9' {
+				f.numericTag = true
 			}
 			for _, ch := range fd.Tag {
 				if ch == '.' {
@@ -224,7 +228,8 @@ func runCase(c Case, r *runlog.R) error {
 	if !gen.EqualValues(orig.Elem(), in.Elem()) {
 		return fmt.Errorf("NewFrom modified its argument\n before %s\n after  %s", gen.Show(orig.Elem()), gen.Show(in.Elem()))
 	}
-	tagged := f.inline || f.ignore || f.unexp || f.dotted || f.emptyTag
+	tagged := f.inline || f.ignore || f.unexp || f.dotted || f.emptyTag || f.numericTag
+	r.ClassIf(f.numericTag, "numeric config name")
 	r.NonTrivialIf((f.levels >= 2 || tagged) && anyNonZero(want.Elem()))
 	r.ClassIf(f.inline, "inline")
 	r.ClassIf(f.ignore, "ignore")
@@ -246,11 +251,11 @@ func runCase(c Case, r *runlog.R) error {
 
 var subRT = runlog.Register(&runlog.Sub[Case]{
 	Name: "struct-roundtrip",
-	Rule: "random struct types (reflect.StructOf over all primitive kinds, named variants, durations, regexps, pointers, slices, arrays, string-keyed maps, nested and inline structs; tags: rename, dotted with PathSep, inline, ignore, unexported, no name) with values biased to zero values, type extremes, NaN/-0/Inf, nil vs empty collections and strings with $ . , { }; Unpack(NewFrom(v)) into a zero value must equal v (nil == empty collection, regexps by source, pointer chains by pointee, ignored/unexported fields zero). Non-trivial: the type has >= 2 levels or a tag other than a plain rename, and the value has a non-zero leaf. Distinct: hash of (type, value, options).",
+	Rule: "random struct types (reflect.StructOf over all primitive kinds, named variants, durations, regexps, pointers, slices, arrays, string-keyed maps, nested and inline structs; tags: rename, rename to a number, dotted with PathSep, inline, ignore, unexported, no name) with values biased to zero values, type extremes, NaN/-0/Inf, nil vs empty collections and strings with $ . , { }; Unpack(NewFrom(v)) into a zero value must equal v (nil == empty collection, regexps by source, pointer chains by pointee, ignored/unexported fields zero). Non-trivial: the type has >= 2 levels or a tag other than a plain rename, and the value has a non-zero leaf. Distinct: hash of (type, value, options).",
 	Gen:  genCase,
 	Run:  runCase,
 })
 
-func TestStructRoundTrip(t *testing.T) { subRT.Check(t, 60000, 3000000) }
+func TestStructRoundTrip(t *testing.T) { subRT.Check(t, 200000, 4000000) }
 
 func TestReplay(t *testing.T) { runlog.ReplayMain(t) }
